@@ -476,5 +476,63 @@ class CounterpointScore(Stream):
                     yield dict(case, score=fix_cp_relative(sg.equalize(s)), fixed=fx)
 
 
+
+CHILD = r"""
+import sys, json
+from fractions import Fraction as F
+sys.path.insert(0, "/verif")
+from harness import score_gen as sg
+from harness.core import decanon as load_case
+from musiclang.transform import VoiceLeading
+case = load_case(json.loads(sys.stdin.read()))
+sc = sg.mk_rscore(case["score"])
+vl = VoiceLeading(seed=case["seed"], method=case["method"], max_iter=case["max_iter"], max_iter_rules=case["max_iter_rules"])
+print(json.dumps(str(vl(sc))))
+"""
+
+
+class AcrossProcesses(Stream):
+    """reproducible for a given seed - also from one interpreter run to the next: the same score, seed and options in two fresh
+    Python processes with different PYTHONHASHSEED (parts entering after the first chord used to be added in set order)"""
+    name = "vl_across_processes"
+    checker = None
+    pair = "property oracle: VoiceLeading(seed=s)(score) in two fresh processes with PYTHONHASHSEED 1 and 2 gives the same score"
+    quick, thorough = 6, 40
+
+    def gen(self, rng, n):
+        for i in range(n):
+            names = rng.sample(sg.NAMES, rng.randrange(3, 6))
+            score = []
+            for j in range(rng.randrange(2, 5)):
+                present = names[:1] if j == 0 else names          # the first chord lacks the other parts: they are added as rests
+                c = sg.rand_rchord(rng, present, rel=0, figs=INV_FIGS, systems="ssshhccb", rest=0, cont=0)
+                have = {nm for nm, _ in c["parts"]}
+                for nm in present:
+                    if nm not in have:
+                        c["parts"].append([nm, [sg.rand_rnote(rng, rel=0, rest=0, cont=0, systems="ssshhccb")]])
+                score.append(c)
+            yield {"score": sg.equalize(score), "seed": rng.randrange(1000), "method": rng.choice(["voices_and_rules", "voices", "random"]),
+                   "max_iter": rng.choice([5, 30]), "max_iter_rules": rng.choice([0, 5])}
+
+    def impl(self, case):
+        import subprocess, os, json as _json
+        outs = []
+        for hs in ("1", "2"):
+            env = dict(os.environ, PYTHONHASHSEED=hs)
+            p = subprocess.run(["/venv/bin/python", "-c", CHILD], input=_json.dumps(core.canon(case)), capture_output=True, text=True, env=env, timeout=300)
+            outs.append(p.stdout.strip() if p.returncode == 0 else "exc:" + p.stderr.strip().splitlines()[-1][:200] if p.stderr.strip() else "exc")
+        return {"outs": outs}
+
+    def spec(self, case, r):
+        a, b = r["outs"]
+        if a.startswith("exc") or b.startswith("exc"):
+            return {"sig": "voice-leading-raises:fresh-process", "msg": f"{a[:200]} / {b[:200]}"}
+        if a != b:
+            return {"sig": "vl-not-reproducible:across-processes", "msg": "the same score, seed and options give different results under PYTHONHASHSEED=1 and 2"}
+        return None
+
+    def nontrivial(self, case, r):
+        return len(case["score"][0]["parts"]) + 2 <= len({nm for c in case["score"] for nm, _ in c["parts"]})
+
 def streams():
-    return [VoiceLeadingStream(), Parsimonious(), Counterpoint(), CounterpointScore()]
+    return [VoiceLeadingStream(), Parsimonious(), Counterpoint(), CounterpointScore(), AcrossProcesses()]
